@@ -19,16 +19,18 @@ theorem mergeOne_some_opt {c e first} {F : Fields} {name field oi}
     (hg : Fields.get? F name = some (.opt oi)) :
     mergeOne c e first F name field = (do
       let b1 ← e.eq (.opt oi) field
+      if b1 = true then pure F else do
       let b2 ← e.eq oi field
-      if (b1 || b2) = true then pure F else pure (F.set name (.opt (mergeNew c field oi)))) := by
+      if b2 = true then pure F else pure (F.set name (.opt (mergeNew c field oi)))) := by
   unfold mergeOne; rw [hg]; rfl
 
 theorem mergeOne_some_other {c e first} {F : Fields} {name field orig}
     (hg : Fields.get? F name = some orig) (ho : orig.isOpt = false) :
     mergeOne c e first F name field = (do
       let same ← e.eq orig field
+      if same = true then pure F else do
       let sameInner ← (match field with | .opt fi => e.eq orig fi | _ => pure false)
-      if (same || sameInner) = true then pure F else pure (F.set name (mergeNew c field orig))) := by
+      if sameInner = true then pure (F.set name field) else pure (F.set name (mergeNew c field orig))) := by
   unfold mergeOne; rw [hg]
   cases orig <;> first | rfl | simp [Ty.isOpt] at ho
 
